@@ -958,7 +958,7 @@ func C17() *engine.Check {
 	return &engine.Check{
 		Property: "C17",
 		Level:    "model_checking",
-		Subs:     []*engine.Sub{c17RoundtripSub(), c17CountSub(), c17SizeSub(), c17PrivateSub(), c17BigBadSub(), c17CorruptSub(), c17WrongCidSub(), c17RawCarSub(), carLabelSub("C17"), c17LongIDSub(), c17StdReaderSub(), c17SeqSub(), c17ConcSub(), concRaceSub("C17")},
+		Subs:     []*engine.Sub{c17RoundtripSub(), c17CountSub(), c17SizeSub(), c17PrivateSub(), c17BigBadSub(), c17CorruptSub(), c17WrongCidSub(), c17RawCarSub(), carLabelSub("C17"), c17LongIDSub(), c17BigSub(), c17SigLenSub(), c17StdReaderSub(), c17SeqSub(), c17ConcSub(), concRaceSub("C17")},
 		Assumptions: []string{
 			"token pool of 4 sealed tokens (3 signature algorithms): every subset in every insertion order; plus sets of n distinct Ed25519 delegations for every n up to 40 and around 128 and 256",
 			"the CBOR container format does not store CIDs, so a wrong CID given to AddSealed is invisible there; only CAR readers can and must detect a CID that does not hash to the data",
